@@ -145,7 +145,8 @@ def check_aligned(ctx: Ctx, dtype, cond=None):
         m = rng.choice([2, 3])
         n = rng.randint(m, m + 2)
         sig = sorted([Fr(1)] + [Fr(1, rng.randint(2, cond // 2)) for _ in range(m - 2)] + [Fr(1, cond)], reverse=True)
-    scale = rng.choice([Fr(1), Fr(1, 100), Fr(100), Fr(1, 10 ** 6), Fr(10 ** 5)])
+    # (up to 1e10: the Gramian, of magnitude 1e20, is still far inside single precision's range — its SQUARES are not)
+    scale = rng.choice([Fr(1), Fr(1, 100), Fr(100), Fr(1, 10 ** 6), Fr(10 ** 5), Fr(10 ** 10)])
     J, V, sigma, W = m_svd(rng, m, n, sigmas=sig, scale=scale)
     vecs = transpose(V)            # eigenvectors of J J^T = columns of V
     pref = rng.choice([None, [Fr(rng.randint(1, 8), 4) for _ in range(m)], "onehot"])
